@@ -36,6 +36,9 @@ func (r *byteReader) remaining() int {
 }
 
 func (r *byteReader) read(n int) ([]byte, error) {
+	if n < 0 {
+		return nil, fmt.Errorf("invalid read length %d", n)
+	}
 	if r.remaining() < n {
 		return nil, fmt.Errorf("insufficient bytes: need %d have %d", n, r.remaining())
 	}
@@ -103,6 +106,10 @@ func (r *byteReader) SkipTaggedFields() error {
 		}
 		if size == 0 {
 			continue
+		}
+		// Compare as uint64: a size above MaxInt would wrap to a negative int.
+		if size > uint64(r.remaining()) {
+			return fmt.Errorf("insufficient bytes: tagged field needs %d have %d", size, r.remaining())
 		}
 		if _, err := r.read(int(size)); err != nil {
 			return err
